@@ -9,7 +9,8 @@
      offsets      = red_walk 0 root as `offset:len`
      lexerrors    = `start-end:K` of the lexer errors (from parse_with), in token order
      identity     = digest of rewrite leave_all root, digest of token_rewrite keep_all root
-     repl         = per request: digests of bytes_of after token_rewrite / rewrite with the counting closures
+     repl         = per request `index:text|-:trivia|-` (clone_with_text and/or clone_with_leading_trivia of the
+                    index-th token): digests of bytes_of after token_rewrite / rewrite with the counting closures
      (inputs given by a descriptor `@deep:..` or marked BIG by the harness are answered `SKIP`)
      mflags       = C model crash, R tokens left unconsumed, I identity rewrite not identical, `-` none
    `c17_run --kw` prints the model's keyword table (`K word` reserved, `N word` VHDL-2019 only). *)
@@ -57,6 +58,19 @@ let tok_str ((t, e) : ltok) =
   Stdlib.String.concat "," [kind_name t.t_kind; hexs t.t_text;
                             Stdlib.String.concat "." (Stdlib.List.map piece_str t.t_trivia); err]
 let toks_str ts = Stdlib.String.concat ";" (Stdlib.List.map tok_str ts)
+
+(* trivia in the notation of piece_str, pieces joined by '.' *)
+let parse_trivia (spec : string) : tpiece list =
+  Stdlib.List.filter_map (fun p ->
+    if p = "" then None else begin
+      let rest = Stdlib.String.sub p 1 (Stdlib.String.length p - 1) in
+      let n () = n_of_int (int_of_string rest) in
+      Some (match Stdlib.String.get p 0 with
+        | 'H' -> HTabs (n ()) | 'V' -> VTabs (n ()) | 'R' -> CRs (n ()) | 'W' -> CRLFs (n ()) | 'L' -> LFs (n ())
+        | 'F' -> FFs (n ()) | 'S' -> Spaces (n ()) | 'N' -> NBSPs (n ())
+        | 'c' -> LineC (unhex rest) | 'b' -> BlockC (unhex rest) | 'u' -> UBlockC (unhex rest)
+        | _ -> failwith ("bad trivia piece " ^ p))
+    end) (split_on '.' spec)
 
 let parse_events (s : string) : Builder.pop list =
   Stdlib.List.filter_map (fun w ->
@@ -118,17 +132,20 @@ let case (ln : string) =
         let lv = Stdlib.Array.of_list (Green.leaves root) in
         let reqs = Stdlib.List.filter (fun x -> x <> "") (split_on ',' repl) in
         Buffer.add_string buf (Stdlib.String.concat ";" (Stdlib.List.map (fun r ->
-          match split_on ':' r with
-          | [i; h] ->
+          let fields = match split_on ':' r with [i; h] -> Some (i, h, "-") | [i; h; v] -> Some (i, h, v) | _ -> None in
+          match fields with
+          | Some (i, h, v) ->
             let i = int_of_string i in
             if i >= Stdlib.Array.length lv then "-,-"
             else begin
-              let t' = Rewrite.clone_with_text lv.(i) (unhex h) in
+              let t0 = lv.(i) in
+              let t1 = if h = "-" then t0 else Rewrite.clone_with_text t0 (unhex h) in
+              let t' = if v = "-" then t1 else Rewrite.clone_with_leading_trivia t1 (parse_trivia v) in
               let a = Rewrite.token_rewrite Rewrite.nat_hook (Rewrite.replace_nth_t (nat_of_int i) t') Rewrite.nat_hook Datatypes.O root in
               let b = Rewrite.rewrite (Rewrite.replace_nth_e (nat_of_int i) t') Datatypes.O root in
               digest (Green.bytes_of a) ^ "," ^ digest (Green.bytes_of b)
             end
-          | _ -> "BADREQ") reqs));
+          | None -> "BADREQ") reqs));
         Buffer.add_char buf '|';
         Buffer.add_string buf (if Buffer.length mflags = 0 then "-" else Buffer.contents mflags)
     end;
